@@ -399,6 +399,8 @@ func oracleFails(name string, x []byte) bool {
 		}
 		ch, pan := oneFileChanges(q)
 		return !pan && ch
+	case "quote/chain-inverse":
+		return chainFails(x)
 	case "quote/refuses":
 		_, err := txtar.Quote(x)
 		should := len(x) > 0 && (x[len(x)-1] != '\n' || !utf8.Valid(x))
@@ -433,7 +435,7 @@ func crlfMarkersToLF(x []byte) []byte {
 }
 
 var oracles03 = []string{"parse/no-panic", "reparse/stable", "parse/agrees-with-x-tools", "parse/data-nl-terminated", "parse/crlf-like-lf"}
-var oracles14 = []string{"needsquote/exact", "quote/unquote-inverse", "quote/clean", "quote/refuses"}
+var oracles14 = []string{"needsquote/exact", "quote/unquote-inverse", "quote/clean", "quote/refuses", "quote/chain-inverse"}
 
 func main() {
 	f := common.ParseFlags()
@@ -635,6 +637,20 @@ func main() {
 	for i := 0; i < nStruct; i++ {
 		one(genText(r), "structured")
 	}
+	// 3a. C14: bodies whose lines already start with '>' and chains Quote^k / Unquote^k (chains.go)
+	if prop == "C14" {
+		rq := common.NewRNG(f.Seed ^ 0x51c14)
+		for i := 0; i < nStruct/10; i++ {
+			d := genQuotedBody(rq)
+			if i%4 == 3 {
+				d = genText(rq)
+				if len(d) > 0 && d[len(d)-1] != '\n' {
+					d = append(d, '\n')
+				}
+			}
+			chain(d, one)
+		}
+	}
 	// 4. malformed / random stream
 	for i := 0; i < nRand; i++ {
 		one(genRandom(r), "random")
@@ -732,6 +748,9 @@ func main() {
 	}
 	res.Exhaustive = false
 	res.Notes = append(res.Notes, "every case is compared against the line-based model AND the statement-level model (parseidx / needsquoteidx, with PANIC and OUTOFFUEL as observable answers), and the model is asked to evaluate its own property statement (holds / holds14) on it")
+	if prop == "C14" {
+		res.Notes = append(res.Notes, "already-quoted data: bodies all (or all but one) of whose lines start with one to three '>', and for each body d the derived Quote(d), Quote^2(d), Quote^3(d), Unquote(d), Unquote^2(d) are inputs like any other; oracle quote/chain-inverse on every case: Unquote^k(Quote^k(d)) == d for k <= 3 with every intermediate level equal and clean")
+	}
 	res.Rule = fmt.Sprintf("corpus, then every string over the alphabet %q up to length %d, marker-shaped strings, %d structured texts built from marker look-alike lines with LF/CRLF/CR endings, %d random byte strings (and well-formed archives for the Format/Parse law); a case is non-trivial when it contains \"--\" (C03: or yields files / panics; C14: or contains '>'); distinct = distinct parse result (C03) or distinct input (C14)", sigma, maxLen, nStruct, nRand)
 	res.Write(f.Out)
 }
